@@ -452,7 +452,7 @@ z_enum!(E3 {
 fn engine() -> Tera {
     let mut tera = Tera::default();
     tera.autoescape_on(Vec::<&str>::new());
-    tera.add_raw_templates(vec![("p", "{{ v }}")]).unwrap();
+    tera.add_raw_templates(vec![("p", "{{ v }}"), ("idx", "{{ v[k] }}"), ("iter", "{% for a, b in v %}[{{ a }}={{ b }}]{% endfor %}")]).unwrap();
     tera
 }
 
@@ -738,6 +738,265 @@ fn map_order_oracle<K: Z + Ord + Eq + std::hash::Hash, V: Z>(tera: &Tera, m: &BT
     }
 }
 
+
+// ------------------------------------------------------------------ value level: a `Value` given back to serde
+
+use tera::value::Key;
+
+fn rand_key_v(rng: &mut Rng) -> Key<'static> {
+    match rng.below(10) {
+        0 => Key::Bool(rng.chance(1, 2)),
+        1 => Key::U64(*rng.pick(&[0, 1, 2, 9, 10, 11, 99, 100, 200, 1000, u64::MAX, 1 << 63])),
+        2 => Key::I64(*rng.pick(&[-1, -2, -10, -9, -100, i64::MIN, i64::MAX, 0, 1, 5, 10, 20])),
+        3 => Key::U128(*rng.pick(&[u128::MAX, 1u128 << 64, 7, 70, 700])),
+        4 => Key::I128(*rng.pick(&[i128::MIN, i128::MAX, -(1i128 << 64), -7, -70, 3, 30])),
+        5 => Key::I64(rng.range(-1200, 1200)),
+        6 => Key::U64(rng.below(100_000) as u64),
+        7 => Key::from(rng.pick(&["a", "b", "B", "key", "", "true", "false", "1", "10", "9", "-1", "é", "z"]).to_string()),
+        _ => Key::from(String::gen_(rng, 0)),
+    }
+}
+
+/// `plain`: no undefined and no safe string (what a conversion of Rust data can produce)
+fn rand_value_v(rng: &mut Rng, depth: usize, plain: bool) -> Value {
+    let top = if depth == 0 { 9 } else { 13 };
+    match rng.below(top) {
+        0 => Value::none(),
+        1 => Value::from(rng.chance(1, 2)),
+        2 => Value::from(u64::gen_(rng, 0)),
+        3 => Value::from(i64::gen_(rng, 0)),
+        4 => Value::from(u128::gen_(rng, 0)),
+        5 => Value::from(i128::gen_(rng, 0)),
+        6 => Value::from(f64::gen_(rng, 0)),
+        7 => {
+            let s = String::gen_(rng, 0);
+            if !plain && rng.chance(1, 3) { Value::safe_string(&s) } else { Value::from(s.as_str()) }
+        }
+        8 => {
+            if !plain && rng.chance(1, 2) {
+                Value::undefined()
+            } else {
+                Value::bytes((0..rng.below(4)).map(|_| rng.below(256) as u8).collect::<Vec<u8>>())
+            }
+        }
+        9 => Value::from((0..rng.below(4)).map(|_| rand_value_v(rng, depth - 1, plain)).collect::<Vec<Value>>()),
+        _ => {
+            let mut m = tera::Map::new();
+            for _ in 0..rng.below(6) {
+                m.insert(rand_key_v(rng), rand_value_v(rng, depth - 1, plain));
+            }
+            Value::from(m)
+        }
+    }
+}
+
+/// the order of `impl Ord for Key` as the documentation states it, written independently:
+/// bools, then integers by exact value whatever their width, then strings by bytes
+fn key_cmp_ref(a: &Key<'_>, b: &Key<'_>) -> std::cmp::Ordering {
+    fn rank(k: &Key<'_>) -> u8 {
+        match k {
+            Key::Bool(_) => 0,
+            Key::U64(_) | Key::I64(_) | Key::U128(_) | Key::I128(_) => 1,
+            _ => 2,
+        }
+    }
+    /// (negative?, magnitude)
+    fn num(k: &Key<'_>) -> Option<(bool, u128)> {
+        Some(match k {
+            Key::U64(n) => (false, *n as u128),
+            Key::U128(n) => (false, *n),
+            Key::I64(n) => (*n < 0, n.unsigned_abs() as u128),
+            Key::I128(n) => (*n < 0, n.unsigned_abs()),
+            _ => return None,
+        })
+    }
+    match (a, b) {
+        (Key::Bool(x), Key::Bool(y)) => x.cmp(y),
+        _ => match (num(a), num(b)) {
+            (Some((na, ma)), Some((nb, mb))) => match (na, nb) {
+                (false, false) => ma.cmp(&mb),
+                (true, true) => mb.cmp(&ma),
+                (true, false) => std::cmp::Ordering::Less,
+                (false, true) => std::cmp::Ordering::Greater,
+            },
+            _ => match (a.as_str(), b.as_str()) {
+                (Some(x), Some(y)) => x.as_bytes().cmp(y.as_bytes()),
+                _ => rank(a).cmp(&rank(b)),
+            },
+        },
+    }
+}
+
+fn render_tpl(tera: &Tera, tpl: &str, ctx: &Context) -> String {
+    match catch(std::panic::AssertUnwindSafe(|| tera.render(tpl, ctx))) {
+        Err(p) => format!("panic {p}"),
+        Ok(Ok(s)) => format!("ok {}", hexs(&s)),
+        Ok(Err(_)) => "err".to_string(),
+    }
+}
+
+fn print_of(tera: &Tera, v: &Value) -> Option<String> {
+    let mut c = Context::new();
+    c.insert_value("v", v.clone());
+    match catch(std::panic::AssertUnwindSafe(|| tera.render("p", &c))) {
+        Ok(Ok(s)) => Some(s),
+        _ => None,
+    }
+}
+
+/// Maps print in sorted KEY order, checked without a model of the format: every entry is printed
+/// on its own (as a single-entry map, by the engine), and the text of the whole map must be those
+/// entry texts in the order of the keys (`key_cmp_ref`), between one pair of braces, joined by one
+/// constant separator. Applied to every map inside the value.
+fn key_order_oracle(tera: &Tera, v: &Value, out: &mut Out) {
+    if let Some(a) = v.as_array() {
+        a.iter().for_each(|x| key_order_oracle(tera, x, out));
+    }
+    let Some(m) = v.as_map() else { return };
+    m.values().for_each(|x| key_order_oracle(tera, x, out));
+    if m.len() < 2 {
+        return;
+    }
+    let mut es: Vec<(&Key<'static>, &Value)> = m.iter().collect();
+    es.sort_by(|a, b| key_cmp_ref(a.0, b.0));
+    let mut parts: Vec<String> = Vec::new();
+    for (k, x) in &es {
+        let mut single = tera::Map::new();
+        single.insert((*k).clone(), (*x).clone());
+        match print_of(tera, &Value::from(single)) {
+            Some(t) if t.len() >= 2 => parts.push(t[1..t.len() - 1].to_string()),
+            _ => return, // printing itself failed: reported elsewhere
+        }
+    }
+    let Some(full) = print_of(tera, v) else { return };
+    out.checks += 1;
+    let ok = (0..=3usize).any(|d| {
+        // separator = the d bytes that follow the first entry
+        let start = 1 + parts[0].len();
+        let Some(sep) = full.get(start..start + d) else { return false };
+        let mut want = String::from(&full[..1]);
+        want.push_str(&parts.join(sep));
+        want.push_str(&full[full.len() - 1..]);
+        want == full
+    });
+    if !ok {
+        let keys: Vec<String> = es.iter().map(|(k, _)| k.to_string()).collect();
+        out.fails.push(format!("map does not print its entries in key order {keys:?}: `{full}`"));
+    }
+}
+
+fn is_plain(v: &Value) -> bool {
+    use tera::value::ValueKind as K;
+    match v.kind() {
+        K::Undefined => false,
+        K::String => !v.is_safe(),
+        K::Array => v.as_array().unwrap().iter().all(is_plain),
+        K::Map => v.as_map().unwrap().values().all(is_plain),
+        _ => true,
+    }
+}
+
+/// A `Value` handed to serde again (`Context::insert(k, &value)`, `Value::from_serializable(&value)`):
+/// `impl Serialize for Value / Key` composed with `ValueSerializer` is the identity on converted
+/// values, so `insert` and `insert_value` are interchangeable.
+fn run_value_level(tera: &Tera, v: &Value) -> Out {
+    let mut out = Out::default();
+    let plain = is_plain(v);
+    out.tags.push(if plain { "value.plain".into() } else { "value.with_safe_or_undefined".into() });
+    // 1. second conversion
+    let again = catch(std::panic::AssertUnwindSafe(|| Value::try_from_serializable(v)));
+    let shown = match &again {
+        Err(p) => format!("panic {p}"),
+        Ok(Err(e)) => if e.to_string().contains("map key must be") { "err badkey".into() } else { "err".into() },
+        Ok(Ok(v2)) => format!("ok {}", encode(v2)),
+    };
+    out.model.push((format!("reser {}", encode(v)), shown.clone(), "reser"));
+    out.checks += 1;
+    if plain && shown != format!("ok {}", encode(v)) {
+        out.fails.push(format!("Value::from_serializable(&value) is not the value: {} became {shown}", encode(v)));
+    }
+    // 2. insert(&value) and insert_value(value) are interchangeable: printing, lookups by every key
+    //    and index, iteration
+    let c1 = catch(std::panic::AssertUnwindSafe(|| {
+        let mut c = Context::new();
+        c.insert("v", v);
+        c
+    }));
+    let mut c2 = Context::new();
+    c2.insert_value("v", v.clone());
+    match c1 {
+        Err(p) => out.fails.push(format!("Context::insert(&value) panicked: {p}")),
+        Ok(mut c1) => {
+            let mut probes: Vec<(String, Option<Value>)> = vec![("p".into(), None)];
+            if let Some(m) = v.as_map() {
+                probes.push(("iter".into(), None));
+                for k in m.keys() {
+                    probes.push(("idx".into(), Some(k.as_value())));
+                }
+            }
+            if let Some(a) = v.as_array() {
+                for i in 0..a.len().min(3) {
+                    probes.push(("idx".into(), Some(Value::from(i as u64))));
+                }
+            }
+            for (tpl, k) in probes {
+                if let Some(k) = &k {
+                    c1.insert_value("k", k.clone());
+                    c2.insert_value("k", k.clone());
+                }
+                let (a, b) = (render_tpl(tera, &tpl, &c1), render_tpl(tera, &tpl, &c2));
+                out.checks += 1;
+                if a.starts_with("panic") || b.starts_with("panic") {
+                    out.fails.push(format!("panic rendering `{tpl}`: {a} / {b}"));
+                } else if plain && a != b {
+                    out.fails.push(format!("insert(&value) and insert_value(value) differ on template `{tpl}`{}: {a} vs {b}", k.as_ref().map(|k| format!(" with k = {k}")).unwrap_or_default()));
+                    break;
+                }
+            }
+        }
+    }
+    // 3. key order of every map inside, and the whole text against the model
+    key_order_oracle(tera, v, &mut out);
+    // (a top-level undefined is refused by the VM before it is formatted)
+    if !has_bytes(v) && !v.is_undefined() {
+        out.model.push((fmt_request(v), render(tera, &c2), "print(value-level)"));
+    }
+    out
+}
+
+fn run_values(tera: &Tera, seed: u64, n: usize) -> TypeRun {
+    let mut rng = Rng::new(seed ^ 0x7a1e);
+    let mut outs = Vec::with_capacity(n + 8);
+    let mut fixed: Vec<Value> = Vec::new();
+    // integer keys that differ in digit count and sign; every key kind in one map; bool keys
+    for keys in [vec![9i64, 10, 200, 1000], vec![-2, -1, 0, 1], vec![-10, -9, 9, 10, 100]] {
+        let mut m = tera::Map::new();
+        for k in keys {
+            m.insert(Key::I64(k), Value::from(k));
+        }
+        fixed.push(Value::from(m));
+    }
+    let mut m = tera::Map::new();
+    m.insert(Key::Bool(false), Value::from(0));
+    m.insert(Key::Bool(true), Value::from(1));
+    fixed.push(Value::from(m.clone()));
+    m.insert(Key::U64(10), Value::from("ten"));
+    m.insert(Key::I64(-3), Value::from("minus three"));
+    m.insert(Key::U128(9), Value::from("nine"));
+    m.insert(Key::from("10".to_string()), Value::from("string ten"));
+    m.insert(Key::from("B".to_string()), Value::from(vec![Value::from(fixed[0].clone())]));
+    fixed.push(Value::from(m));
+    for v in fixed {
+        outs.push((encode(&v), run_value_level(tera, &v)));
+    }
+    for i in 0..n {
+        let d = 1 + rng.below(3);
+        let v = rand_value_v(&mut rng, d, i % 5 != 0);
+        outs.push((encode(&v), run_value_level(tera, &v)));
+    }
+    TypeRun { name: "tera::Value", ty: "value".into(), in_family: false, outs }
+}
+
 struct TypeRun {
     name: &'static str,
     ty: String,
@@ -841,6 +1100,17 @@ fn main() {
         let text = std::fs::read_to_string(&path).expect("replay file");
         let j: serde_json::Value = serde_json::from_str(&text).expect("replay json");
         let j = if j.get("replay").is_some() { j["replay"].clone() } else { j };
+        if j["type"] == "tera::Value" {
+            let v = tera_verif_harness::wire::decode(j["value"].as_str().unwrap()).expect("value");
+            let o = run_value_level(&tera, &v);
+            println!("value: {v} ({})", encode(&v));
+            for (req, imp, stage) in &o.model {
+                let m = driver::run_batch(&exe, std::slice::from_ref(req)).map(|v| v[0].clone());
+                println!("[{stage}] request: {}\n   implementation: {imp}\n   model: {m:?}", req.chars().take(400).collect::<String>());
+            }
+            println!("oracle failures: {:?}", o.fails);
+            return;
+        }
         let ti = j["type_index"].as_u64().unwrap() as usize;
         let seed = j["seed"].as_u64().unwrap();
         let n = j["n"].as_u64().unwrap() as usize;
@@ -889,6 +1159,7 @@ fn main() {
         all.into_iter().map(|x| x.1).collect()
     });
     let mut results = results;
+    results.push(run_values(&tera, seed, env.budget(20_000, 40_000)));
     if round == 0 {
         let fixed = fixed_runs(&tera);
         report.count_n("values.fixed_regression", fixed.iter().map(|t| t.outs.len() as u64).sum());
